@@ -130,3 +130,14 @@ def wire_str(v):
     if t == "enum":
         return str(v[2])
     raise ValueError(v)
+
+
+def non_identifier_params(ep):
+    """python names of parameters that are not Python identifiers (finding raw_fallback: colliding names fall back to the raw name)"""
+    import keyword
+    out = []
+    for p in list(ep.path_parameters) + list(ep.query_parameters) + list(ep.header_parameters) + list(ep.cookie_parameters):
+        n = str(p.python_name)
+        if not n.isidentifier() or keyword.iskeyword(n):
+            out.append(n)
+    return out
